@@ -87,6 +87,10 @@ fn ident(n: u32) -> i64 {
     n as i64
 }
 /// la adds 1, lb adds 3, alternately, la first
+/// the start call and every round make exactly one closure
+fn makes(n: u32) -> i64 {
+    n as i64 + 1
+}
 fn alternating(n: u32) -> i64 {
     ((n + 1) / 2) as i64 + 3 * (n / 2) as i64
 }
@@ -121,6 +125,15 @@ pub const SHAPES: &[Shape] = &[
         start: "(pa pa pb N 0)",
         calls: &[("other", "other self NEXT (+ acc step)")],
         result: alternating,
+    },
+    // the operator of the tail call has an effect (the maker counts its calls): it is evaluated
+    // exactly once per round; the loop's value is that count
+    Shape {
+        name: "counting-operator",
+        defs: "(define made 0) (define (make-counted) (set! made (+ made 1)) (lambda (n acc) BODY0))",
+        start: "(+ (* 0 ((make-counted) N 0)) made)",
+        calls: &[("(make-counted)", "NEXT (+ acc 1)")],
+        result: makes,
     },
     Shape { name: "closure-returned", defs: "(define (make-step) (lambda (n acc) BODY0))", start: "((make-step) N 0)", calls: &[("(make-step)", "NEXT (+ acc 1)")], result: ident },
 ];
